@@ -7,7 +7,7 @@
 pub enum Bound { ExclusiveRaw(Vec<u8>), InclusiveRaw(Vec<u8>) }
 pub uninterp spec fn sorted_keys(p: Map<Seq<u8>, PairInfoRaw>) -> Seq<Seq<u8>>;
 pub broadcast proof fn axiom_sorted_keys(p: Map<Seq<u8>, PairInfoRaw>)
-    ensures keys_sorted(#[trigger] sorted_keys(p)), forall|k: Seq<u8>| p.dom().contains(k) <==> sorted_keys(p).contains(k) { admit(); }
+    ensures p.dom().finite() ==> keys_sorted(#[trigger] sorted_keys(p)) && (forall|k: Seq<u8>| p.dom().contains(k) <==> sorted_keys(p).contains(k)) { admit(); }   // a finite set of byte strings has exactly one ascending listing
 pub open spec fn bound_excl(start: Option<Bound>) -> Option<Seq<u8>> { match start { Some(Bound::ExclusiveRaw(v)) => Some(v@), _ => None } }
 pub open spec fn range_from_ok(p: Map<Seq<u8>, PairInfoRaw>, lo: Option<Seq<u8>>, items: Seq<StdResult<(Vec<u8>, PairInfoRaw)>>) -> bool {
     let all = sorted_keys(p);
@@ -16,7 +16,7 @@ pub open spec fn range_from_ok(p: Map<Seq<u8>, PairInfoRaw>, lo: Option<Seq<u8>>
 }
 impl MapPairs {
     #[verifier::external_body] pub fn range_from(&self, s: &Storage, start: Option<Bound>) -> (r: Vec<StdResult<(Vec<u8>, PairInfoRaw)>>)
-        ensures !(start matches Some(Bound::InclusiveRaw(_))) ==> range_from_ok(s.pairs@, bound_excl(start), r@) { unimplemented!() }
+        ensures s.pairs@.dom().finite(), !(start matches Some(Bound::InclusiveRaw(_))) ==> range_from_ok(s.pairs@, bound_excl(start), r@) { unimplemented!() }   // a contract store holds finitely many records
 }
 // Iterator::take(n) on an owned vector: the first min(n, len) elements, in order (VERIFIED)
 pub fn vtake<T>(v: Vec<T>, n: usize) -> (r: Vec<T>)
@@ -97,7 +97,7 @@ pub proof fn lemma_c19_first_page(p: Map<Seq<u8>, PairInfoRaw>, n: nat, out: Seq
 }
 // C19, next page: continuing after the last pair returned (the i-th of the listing, 1-based) yields the records i, i+1, ... in order
 pub proof fn lemma_c19_next_page(p: Map<Seq<u8>, PairInfoRaw>, i: int, last: PairInfo, r0: AssetInfoRaw, r1: AssetInfoRaw, n: nat, out: Seq<PairInfo>)
-    requires registry_wf(p), no_ext01(sorted_keys(p)), 0 < i <= sorted_keys(p).len(), normal_of(p[sorted_keys(p)[i - 1]], last),
+    requires p.dom().finite(), registry_wf(p), no_ext01(sorted_keys(p)), 0 < i <= sorted_keys(p).len(), normal_of(p[sorted_keys(p)[i - 1]], last),
         raw_of(last.asset_infos[0], r0), raw_of(last.asset_infos[1], r1), page_ok(p, cursor_of(r0, r1), n, out)
     ensures /*[C19 walk.next-page]*/ ({ let all = sorted_keys(p); out.len() == page_len(all.len() as int, i, n) && forall|t: int| 0 <= t < out.len() ==> normal_of(p[all[i + t]], #[trigger] out[t]) })
 {
@@ -147,7 +147,7 @@ pub proof fn lemma_key_of_no_ext01(l1: AssetInfoRaw, h1: AssetInfoRaw, l2: Asset
     }
 }
 pub proof fn lemma_no_ext01_from_ids(p: Map<Seq<u8>, PairInfoRaw>, addr_len: nat)
-    requires registry_wf(p), ids_clean(p, addr_len)
+    requires p.dom().finite(), registry_wf(p), ids_clean(p, addr_len)
     ensures /*[C19 walk.clean-identifiers-give-no-ext01]*/ no_ext01(sorted_keys(p))
 {
     broadcast use axiom_sorted_keys;
